@@ -517,7 +517,7 @@ def register(eng):
         return deco
 
     # ---- panics
-    @model("panicking::panic", "panicking::panic_fmt", "panicking::panic_display", "panicking::panic_explicit",
+    @model("panic_fmt", "panic", "panic_display", "panic_explicit", "panicking::panic", "panicking::panic_fmt", "panicking::panic_display", "panicking::panic_explicit",
            "panicking::unreachable_display", "panicking::panic_nounwind", "rt::begin_panic", "panicking::panic_const::panic_const_div_by_zero")
     def _panic(eng, a, callee):
         msg = ""
